@@ -11,10 +11,11 @@ RULE = ("requests generated from the positive grammar (9 methods, '/'-targets wi
         "mixed line ends) and every single-fault corruption of them (unknown, lower-case, truncated method; missing SP; "
         "missing or misspelt HTTP/; non-digit version; junk after the version; header line without colon; missing final "
         "empty line; every kind of proper prefix), each sent over UDP and inside a validated TCP flow (one segment), random "
-        "ports, both IP versions, random logger and log level (off / warn / info / trace). Positive: reply must start 'HTTP/1.1 401', carry WWW-Authenticate and a "
+        "ports, both IP versions, random logger and log level (off / warn / info / trace); pairs of requests on one keep-alive connection; one shard behind a connection table already holding 66 000 flows. Positive: reply must start 'HTTP/1.1 401', carry WWW-Authenticate and a "
         "Content-Length equal to the bytes after the first empty line. Negative: no reply over UDP, a bare ACK over TCP. "
         "Non-trivial = every case; distinct = distinct (class, method, request bytes hash, transport).")
-ASSUME = ["a third of the positive requests is additionally delivered over TCP in 2-5 segments (exhaustive segmentation is C11's subject)",
+ASSUME = ["a second complete request on the same connection (acknowledging the first response) is expected to be answered like the first",
+          "a third of the positive requests is additionally delivered over TCP in 2-5 segments (exhaustive segmentation is C11's subject)",
           "the positive grammar is the conservative core of what the statement lists; inputs between the positive grammar and the listed faults are not judged",
           "over TCP the request is delivered in one segment here (segmentation is C11's subject)"]
 
@@ -25,8 +26,26 @@ def shard(ctx, budget_s):
     n = 0
     while time.time() < deadline or n == 0:
         cfg = gen.rnd_config(rng, deny=False, logger=rng.choice("ncl"), level=rng.choice([0, 2, 2, 3, 5]))
-        ctx.case(cfg)
+        crowded = ctx.shard == 3 % ctx.nshards
+        ctx.case(cfg, reset=not crowded)
         lab = AppLab(ctx, cfg)
+        if n == 0 and crowded:
+            lab.crowd(66000)          # more than 2^16 connections seen before
+            ctx.stats["crowded_table_rounds"] += 1
+        # a second complete request on the same connection (keep-alive), acknowledging the first response
+        from ..flow import Flow, app_payload
+        for _k in range(3):
+            e = gen.endp(rng, cfg, rng.random() < 0.5)
+            fl = Flow(ctx, e, gen.rnd_port(rng), gen.rnd_port(rng))
+            if fl.syn() is None:
+                continue
+            r1 = app_payload(fl.data(http.gen(rng)))
+            r2 = app_payload(fl.data(http.gen(rng)))        # Flow.data follows the responder's sequence numbers
+            ctx.stats["keepalive_pairs"] += 1
+            ctx.nontrivial("keepalive", _k, n)
+            for which, rr in (("first", r1), ("second", r2)):
+                for e_ in http.check_response(rr):
+                    ctx.violation("keepalive:%s:%s" % (which, e_.split(" ")[0]), "%s; %s request on one connection" % (e_, which), observed=(rr or b"").hex()[:200])
         for _ in range(40):
             p = http.gen_parts(rng)
             if rng.random() < 0.08:
@@ -79,4 +98,4 @@ def shard(ctx, budget_s):
 def run(tier, seed):
     v = core.Verdict(PROP, tier, seed)
     v.merge(core.run_shards(shard, PROP, tier, seed, budget_s=20 if tier == "quick" else 240))
-    return v.finish(RULE, floor=5000, assumptions=ASSUME)
+    return v.finish(RULE, floor=500, assumptions=ASSUME)
